@@ -27,6 +27,19 @@ type failSink struct {
 	calls     int
 	delivered []string
 	onCall    func(call int) error // optional hook (kill, fail at index)
+	// MaxBatch: the sink refuses every call that carries more than this many entities (0 = no limit)
+	MaxBatch int
+	// rejectedAlone: ids of entities the sink refused in a call that carried nothing else
+	rejectedAlone map[string]int
+}
+
+func (f *failSink) noteRejected(entities []*server.Entity) {
+	if len(entities) == 1 {
+		if f.rejectedAlone == nil {
+			f.rejectedAlone = map[string]int{}
+		}
+		f.rejectedAlone[f.h.AbsID(entities[0].ID)]++
+	}
 }
 
 func (f *failSink) GetConfig() map[string]interface{}  { return f.inner.GetConfig() }
@@ -41,12 +54,17 @@ func (f *failSink) processEntities(runner *Runner, entities []*server.Entity) er
 			return err
 		}
 	}
+	if f.MaxBatch > 0 && len(entities) > f.MaxBatch {
+		return fmt.Errorf("sink: payload of %d entities is too large", len(entities))
+	}
 	if f.rejected < f.Transient {
 		f.rejected++
+		f.noteRejected(entities)
 		return errors.New("sink: transient failure")
 	}
 	for _, e := range entities {
 		if f.F[f.h.AbsID(e.ID)] {
+			f.noteRejected(entities)
 			return fmt.Errorf("sink: cannot store %s", f.h.AbsID(e.ID))
 		}
 	}
@@ -83,6 +101,8 @@ type C17Config struct {
 	Reenter int `json:"reenter,omitempty"`
 	// Batches: number of batches the source holds (0 = 2)
 	Batches int `json:"batches,omitempty"`
+	// MaxBatch: the sink refuses calls with more entities than this (every entity is acceptable on its own)
+	MaxBatch int `json:"max_batch,omitempty"`
 }
 
 func (c C17Config) batches() int {
@@ -96,6 +116,9 @@ func (c C17Config) String() string {
 	s := fmt.Sprintf("batch=%d entities=%d rejected=%v maxItems=%d transientFailures=%d pipeline=%s", c.B, c.batches()*c.B, c.F, c.MaxItems, c.Transient, c.Pipeline)
 	if c.Reenter > 0 {
 		s += fmt.Sprintf(" secondTriggerDuringSinkCall=%d", c.Reenter)
+	}
+	if c.MaxBatch > 0 {
+		s += fmt.Sprintf(" sinkRefusesCallsLargerThan=%d", c.MaxBatch)
 	}
 	return s
 }
@@ -138,7 +161,7 @@ func c17Run(cfg C17Config) (viol []engine.Violation, outcome string, herr string
 		F[ids[i]] = true
 		fOrder = append(fOrder, ids[i])
 	}
-	fs := &failSink{inner: jb.pipeline.spec().sink, h: h, F: F, Transient: cfg.Transient}
+	fs := &failSink{inner: jb.pipeline.spec().sink, h: h, F: F, Transient: cfg.Transient, MaxBatch: cfg.MaxBatch}
 	if cfg.Reenter > 0 {
 		// a fullsync job that gets no ticket queues a retry after JOB_FULLSYNC_RETRY_INTERVAL of real time: keep it
 		// from ever firing in this worker (it would run against a later configuration's, or a closed, store)
@@ -227,6 +250,12 @@ func c17Run(cfg C17Config) (viol []engine.Violation, outcome string, herr string
 			if delivered[id] > 1 {
 				fail("transient-twice", fmt.Sprintf("entity %s was delivered %d times", id, delivered[id]))
 			}
+		}
+	}
+	// an entity is only ever reported after the sink refused it on its own (a call carrying nothing else)
+	for _, id := range ids {
+		if reported[id] > 0 && fs.rejectedAlone[id] == 0 {
+			fail("reported-without-own-rejection", fmt.Sprintf("entity %s was handed to the failing-entity handler although the sink never refused a call that carried only it (delivered=%v reported=%v)", id, fs.delivered, rec.reported))
 		}
 	}
 	outcome = fmt.Sprintf("delivered=%d reported=%d error=%v", len(fs.delivered), len(rec.reported), res.LastError != "")
@@ -484,6 +513,16 @@ func init() {
 				for tr := 1; tr <= 4; tr++ {
 					for _, mi := range []int{0, 2} {
 						logCfgs = append(logCfgs, C17Config{B: b, MaxItems: mi, Transient: tr, Pipeline: pl})
+					}
+				}
+			}
+		}
+		// a sink that refuses by payload size: every entity is acceptable alone, so all are delivered and none is reported
+		for _, pl := range []string{"incremental", "fullsync"} {
+			for b := 2; b <= 6; b++ {
+				for mb := 1; mb < b; mb++ {
+					for _, f := range [][]int{nil, {0}, {b - 1}, {1, b}} {
+						logCfgs = append(logCfgs, C17Config{B: b, F: f, MaxBatch: mb, Pipeline: pl})
 					}
 				}
 			}
